@@ -586,6 +586,10 @@ func resolveRef(sym string, digests map[string]string, bad string) string {
 		return "reg.example.test/repo"
 	case sym == "bad":
 		return bad
+	case sym == "fullbad":
+		return "reg.example.test/repo@" + bad
+	case sym == "tagbad":
+		return "reg.example.test/repo:ignored-tag@" + bad
 	}
 	return sym
 }
@@ -629,7 +633,7 @@ func (g *genCtx) history(w *CaseWriter, r *Rng, id int64, mode string, scen *sce
 			mem.table["v1"], mem.table[D[0]] = dA, dA
 			mem.table["v2"], mem.table[D[1]] = dB, dB
 			mem.table[D[2]] = dA
-			badRefs = append(badRefs, D[2])
+			mem.table["sha256:abc"] = dA
 		} else {
 			if r.Chance(1, 5) {
 				dA.ArtifactType = "application/vnd.example.thing"
@@ -655,7 +659,6 @@ func (g *genCtx) history(w *CaseWriter, r *Rng, id int64, mode string, scen *sce
 			}
 			if r.Chance(1, 2) {
 				mem.table[D[2]] = dA // a digest reference that resolves to a different digest
-				badRefs = append(badRefs, D[2])
 			}
 			if r.Chance(1, 6) {
 				mem.table["sha256:abc"] = dA // looks like a digest, is not one: a tag
@@ -686,6 +689,17 @@ func (g *genCtx) history(w *CaseWriter, r *Rng, id int64, mode string, scen *sce
 			tag := fmt.Sprintf("v%d", i+1)
 			if err := store.Tag(ctx, man, tag); err != nil {
 				return err
+			}
+			if i == 0 && (scen != nil || r.Chance(1, 2)) {
+				// oci.Store.Tag accepts any string: a tag spelled like the digest of something
+				// else (a digest reference that resolves to another digest), and a tag that
+				// only looks like a digest
+				if err := store.Tag(ctx, man, D[2]); err != nil {
+					return err
+				}
+				if err := store.Tag(ctx, man, "sha256:abc"); err != nil {
+					return err
+				}
 			}
 			if scen != nil {
 				extras[tag] = map[string]map[string]string{"v1": scen.annV1, "v2": scen.annV2}[tag]
@@ -728,7 +742,7 @@ func (g *genCtx) history(w *CaseWriter, r *Rng, id int64, mode string, scen *sce
 		sort.Strings(probes)
 		probes = append(probes, "missing")
 	} else {
-		probes = []string{"v1", "v2", "missing", D[3]}
+		probes = []string{"v1", "v2", "missing", D[3], D[2], "sha256:abc"}
 		for _, t := range []string{"v1", "v2"} {
 			if d, err := repo.Resolve(ctx, t); err == nil {
 				probes = append(probes, string(d.Digest))
@@ -761,6 +775,8 @@ func (g *genCtx) history(w *CaseWriter, r *Rng, id int64, mode string, scen *sce
 		}
 		if !isBad {
 			targets = append(targets, target{p, d.Annotations})
+		} else {
+			badRefs = append(badRefs, p)
 		}
 		if !seenDg[string(d.Digest)] {
 			seenDg[string(d.Digest)] = true
@@ -1262,7 +1278,10 @@ func scenarios() []scenEntry {
 			{"near-prefix", func() *callSpec {
 				return okStep("v1", map[string]string{"io.cncf.notar": "x", "Io.cncf.notary": "y", "": "z"})
 			}, false},
-			{"digest-elsewhere", func() *callSpec { return okStep("bad", map[string]string{"m1": "v"}) }, true},
+			{"digest-elsewhere", func() *callSpec { return okStep("bad", map[string]string{"m1": "v"}) }, false},
+			{"full-digest-elsewhere", func() *callSpec { return okStep("fullbad", map[string]string{"m1": "v"}) }, false},
+			{"tag-digest-elsewhere", func() *callSpec { return okStep("tagbad", nil) }, false},
+			{"tag-like-digest", func() *callSpec { return okStep("sha256:abc", map[string]string{"m1": "v"}) }, false},
 			{"mt-empty", func() *callSpec {
 				return with(okStep("v1", map[string]string{"m1": "v"}), func(c *callSpec) { c.Mt = "" })
 			}, false},
